@@ -22,6 +22,7 @@ RULE = (
     "in floats on a sub-grid against the same reference, every compiled model being called with all orientations / IMU samples in turn "
     "(CSE off: all calibrations; CSE on: one calibration quaternion in quick, all in thorough). One evaluation = one output at one point. distinct = points; "
     "non-trivial = points with a non-identity composed rotation or non-zero gyro."
+    " The compiled model is also fed from float32 buffers (State.from_data / Control.from_data) whose values use the full 24-bit mantissa and compared with the kinematics on exactly those values to 1e-9."
 )
 ASSUMPTIONS = [
     "exact comparison: the model's Float coefficients (0.5, 1.0) are dyadic and converted to rationals without loss",
